@@ -97,7 +97,10 @@ def _b64_decode_sym(I, s):
     ctx = I.ctx
     dec = ctx.ghost.get('b64dec', {}).get(str(s))
     if dec is not None:
-        return TupleV((I.make_slice(dec), None))
+        n = len(dec)
+        cap = 3 * ((n + 2) // 3)        # DecodedLen of the padded text: what the real decoder allocates
+        arr = tuple(dec) + (0,) * (cap - n)
+        return TupleV((Slice(ctx.alloc(arr, 'b64dec'), 0, n, cap), None))
     # arbitrary string: fails, or decodes to arbitrary bytes of a case-split length
     if ctx.choose(2, 'b64fail') == 1:
         ctx.choice_w['b64fail'] = 1
